@@ -448,6 +448,29 @@ def _parent_is(res, pid, ptype):
 # --------------------------------------------------------------------------------------------------------------------
 # hierarchy checks
 # --------------------------------------------------------------------------------------------------------------------
+def _child_by_provenance(xb, xs, O, d, case, H):
+    """The child location (blocks xb, strand xs, on level d's parent) written down with the constructor, or - for three fifths of the inputs,
+    chosen by the content - obtained from another location: reverse_strand() of its opposite, reset_strand() of a differently stranded twin,
+    reset_parent() of a parentless twin, or reset_parent() of a twin that sits on a look-alike of the parent without ancestors.  All of them
+    are the same location; everything that follows is asked of whichever was built."""
+    par = O.parents[d]
+    v = (sum(a + b for a, b in xb) + 3 * d + len(xb)) % 6
+
+    def as_parent():      # reset_parent() takes a Parent; a Sequence is turned into one the way the constructor does it
+        return par if hasattr(par, "strip_location_info") else G.build(xb, xs, parent=par).parent
+    if v == 2 and xs in "+-":
+        return G.build(xb, {"+": "-", "-": "+"}[xs], parent=par).reverse_strand(), "reverse_strand"
+    if v == 3:
+        other = {"+": "-", "-": ".", ".": "+"}[xs]
+        return G.build(xb, other, parent=par).reset_strand(G.strand_of(xs)), "reset_strand"
+    if v == 4:
+        return G.build(xb, xs).reset_parent(as_parent()), "reset_parent-from-none"
+    if v == 5 and d >= 1 and O.start == 0:
+        bare = _Objs(case, H, start=d).parents[d]
+        return G.build(xb, xs, parent=bare).reset_parent(as_parent()), "reset_parent-from-look-alike"
+    return G.build(xb, xs, parent=par), "constructor"
+
+
 def check_child(ctx, H, O, case, d, xb, xs, refusals=True):
     from inscripta.biocantor.exc import NoSuchAncestorException
     from inscripta.biocantor.sequence import Sequence
@@ -457,8 +480,9 @@ def check_child(ctx, H, O, case, d, xb, xs, refusals=True):
     PX = PM.positions(xb, xs)
     ov = PM.self_overlapping(xb)
     empties = any(e == s for s, e in xb)
-    X = G.build(xb, xs, parent=O.parents[d])
-    det = {"level": d, "x": xb, "xstrand": xs}
+    X, how = _child_by_provenance(xb, xs, O, d, case, H)
+    ctx.note(("provenance", how), klass="child-" + how)
+    det = {"level": d, "x": xb, "xstrand": xs, "child_built_by": how}
     seq_claim = O.mode == "seq" and xs != "." and bool(PX)
     xseq = None
     if seq_claim:
